@@ -42,25 +42,45 @@ Definition stop_with_inflight (k : pr_case) : bool :=
   existsb (fun oo => match fst oo with PStop => match snd oo with [] => false | _ => true end | _ => false end) (combine (pk_ops k) (pk_obs k)).
 Definition count_stops (k : pr_case) : Z := zlen (filter (fun o => match o with PStop => true | _ => false end) (pk_ops k)).
 
-(* C04 / C02 on the implementation's own trace: a backend whose probe failed at instant t (status 500 or transport error;
-   the scripted transport answers at once) serves no client request up to and including t + window.  State: now, current
-   script of each backend, end of the window of each backend. *)
+(* C04 / C02 on the implementation's own trace.  A backend whose probe failed at instant t (status 500 or transport error: the
+   scripted transport answers at once; no answer: the probe's own time-out fires at t + timeout, or Stop cancels it earlier)
+   serves no client request up to and including the end of the window that opens then; and a backend that is outside every
+   such window serves again (the requests of a PRequest go round the whole pool).
+   State: now, current script of each backend, end of the window of each backend, probes without an answer (backend, due). *)
 Definition zget (k : Z) (l : list (Z * Z)) (d : Z) : Z := match lookup k l with Some v => v | None => d end.
-Fixpoint window_ok (w now : Z) (scripts untils : list (Z * Z)) (l : list (pop * list Z)) : bool :=
+
+Definition fire (w now : Z) (untils pending : list (Z * Z)) : list (Z * Z) * list (Z * Z) :=
+  (fold_left (fun u p => if snd p <=? now then update (fst p) (Z.max (zget (fst p) u (snd p + w)) (snd p + w)) u else u) pending untils,
+   filter (fun p => negb (snd p <=? now)) pending).
+
+Fixpoint window_mon (w tmo n now : Z) (stopped : bool) (scripts untils pending : list (Z * Z)) (l : list (pop * list Z)) : bool * bool :=
   match l with
-  | [] => true
-  | (PSet b sc, _) :: t => window_ok w now (update b sc scripts) untils t
-  | (PAdvance dt, _) :: t => window_ok w (now + Z.max 0 dt) scripts untils t
+  | [] => (true, true)
+  | (PSet b sc, _) :: t => window_mon w tmo n now stopped (update b sc scripts) untils pending t
+  | (PAdvance dt, _) :: t =>
+      let now' := now + Z.max 0 dt in
+      let '(u, p) := fire w now' untils pending in window_mon w tmo n now' stopped scripts u p t
   | (PTick, probed) :: t =>
       let untils' := fold_left (fun u i => let sc := zget i scripts 0 in
                                            if Z.eqb sc 1 || Z.eqb sc 2 then update i (now + w) u else u) probed untils in
-      window_ok w now scripts untils' t
+      let pending' := pending ++ flat_map (fun i => if Z.eqb (zget i scripts 0) 3 then [(i, now + tmo)] else []) probed in
+      let '(u, p) := fire w now untils' pending' in
+      window_mon w tmo n now stopped scripts u p t
   | (PRequest, served) :: t =>
-      forallb (fun i => match lookup i untils with Some u => u <? now | None => true end) served && window_ok w now scripts untils t
-  | (PStop, _) :: t => window_ok w now scripts untils t
+      let inwin i := match lookup i untils with Some u => now <=? u | None => false end in
+      (* a backend with a probe still in flight may be ejected at this very instant by its time-out: it claims nothing *)
+      let undecided i := existsb (fun p => Z.eqb (fst p) i) pending in
+      let ok1 := forallb (fun i => negb (inwin i)) served in
+      let ok2 := forallb (fun i => inwin i || undecided i || memZ i served) (map Z.of_nat (seq 1 (Z.to_nat n))) in
+      let '(r1, r2) := window_mon w tmo n now stopped scripts untils pending t in
+      (ok1 && r1, ok2 && r2)
+  | (PStop, _) :: t =>
+      (* cancelled probes fail now *)
+      let untils' := fold_left (fun u p => update (fst p) (Z.max (zget (fst p) u (now + w)) (now + w)) u) pending untils in
+      window_mon w tmo n now true scripts untils' [] t
   end.
 
-(* result vector: [diff; mon_c19_stop_returns; mon_c19_no_probe_after; nt_c19; nt_c04; mon_c04_probe_window] *)
+(* result vector: [diff; mon_c19_stop_returns; mon_c19_no_probe_after; nt_c19; nt_c04; mon_c04_probe_window; mon_c04_probe_recover] *)
 Definition eval_pr_case (k : pr_case) : list Z :=
   let cfg := mkPCfg (pk_window k) (pk_timeout k) in
   let outs := snd (prun cfg (pinit k) (pk_ops k)) in
@@ -69,7 +89,8 @@ Definition eval_pr_case (k : pr_case) : list Z :=
     b2z (no_probe_after_stop false (combine (pk_ops k) (pk_obs k)) && Z.eqb (pk_late k) 0);
     b2z (has_stop k && (stop_with_inflight k || (2 <=? count_stops k)));
     b2z (existsb (fun o => match o with PSet _ s => negb (Z.eqb s 0) | _ => false end) (pk_ops k));
-    b2z (window_ok (pk_window k) 0 [] [] (combine (pk_ops k) (pk_obs k))) ].
+    b2z (fst (window_mon (pk_window k) (pk_timeout k) (pk_n k) 0 false [] [] [] (combine (pk_ops k) (pk_obs k))));
+    b2z (snd (window_mon (pk_window k) (pk_timeout k) (pk_n k) 0 false [] [] [] (combine (pk_ops k) (pk_obs k)))) ].
 
 (* ---- sigterm suite (C19, process level): SIGTERM / SIGINT to the real binary with a request and probes in flight ---- *)
 Record sg_case := mkSgCase {
@@ -98,3 +119,15 @@ Record rc_case := mkRcCase {
 (* result vector: [diff (nothing predicted); mon_c12_no_race; mon_c12_no_panic; mon_c12_no_deadlock; nt_c12] *)
 Definition eval_rc_case (k : rc_case) : list Z :=
   [ -1; b2z (Z.eqb (rc_races k) 0); b2z (Z.eqb (rc_panics k) 0); b2z (Z.eqb (rc_deadlock k) 0); b2z (8 <=? rc_goroutines k) ].
+
+(* ---- stall suite (C03, process level): a client that stops talking in the middle of a request ---- *)
+Record st_case := mkStCase {
+  st_kind : Z;          (* 0 = head and part of the declared body, then silence; 1 = part of the header block, then silence *)
+  st_read_ms : Z;       (* configured server read time-out *)
+  st_elapsed_ms : Z;    (* until the exchange ended (response or closed connection), or until the harness gave up *)
+  st_ended : bool;
+  st_followup : bool    (* a request to the healthy backend succeeded afterwards *)
+}.
+(* result vector: [diff (nothing predicted beyond the monitors); mon_c03_stall_ends; mon_c03_stall_followup; nt_c03] *)
+Definition eval_st_case (k : st_case) : list Z :=
+  [ -1; b2z (st_ended k && (st_elapsed_ms k <=? st_read_ms k + 1500)); b2z (st_followup k); 1 ].
